@@ -185,9 +185,10 @@ Section Local.
     - intros H. injection H as <- <- <- <-. cbn [append].
       destruct X as [|x0 X']; [reflexivity|]. cbn [next_is_ws_or_end] in HX. unfold is_ws in HX.
       replace (byte_of x0 =? 98)%N with false by lia. replace (byte_of x0 =? 120)%N with false by lia.
-      reflexivity.
+      replace (byte_of x0 =? 111)%N with false by lia. reflexivity.
     - cbn [append]. destruct (byte_of c3 =? 98)%N; [intros H; injection H as <- <- <- <-; reflexivity|].
-      destruct (byte_of c3 =? 120)%N; intros H; injection H as <- <- <- <-; reflexivity.
+      destruct (byte_of c3 =? 120)%N; [intros H; injection H as <- <- <- <-; reflexivity|].
+      destruct (byte_of c3 =? 111)%N; intros H; injection H as <- <- <- <-; reflexivity.
   Qed.
 
   Lemma word_finish_app u p stA nA stB nB np radix tmp1 r3 p3 t lA' :
